@@ -22,5 +22,10 @@ for f in sorted(os.listdir(nd)):
     if f.endswith(".diff"):
         out.append({"name": "neutral-" + f[:-5], "patch": "controls/neutral/" + f, "kind": "neutral", "expect": {},
                     "note": "behaviour-preserving edit; the unedited suite passes with it; no rule of any property may report"})
+dd = os.path.join(HERE, "controls", "drift")
+for f in sorted(os.listdir(dd)) if os.path.isdir(dd) else []:
+    if f.endswith(".diff"):
+        out.append({"name": "drift-" + f[:-5], "patch": "controls/drift/" + f, "kind": "drift", "expect": {"C17": ["TV-ACTIONS"]},
+                    "note": "behaviour-preserving edit of the generated parser WITHOUT the grammar source: the translation validation reports the drift between jsonpath.peg and jsonpath.peg.go (that is its job); no other rule may report"})
 json.dump(out, open(os.path.join(HERE, "controls", "controls.json"), "w"), indent=1)
 print(len(out), "controls")
